@@ -50,6 +50,11 @@ AuxHashMap<A>* AuxHashMap<A>::deserialize(const void* bytes, size_t len,
                                           uint8_t lgConfigK,
                                           uint32_t auxCount, uint8_t lgAuxArrInts,
                                           bool srcCompact, const A& allocator) {
+  // one exception per slot at most, held in a table that doubles when more than 3/4 full
+  if (auxCount > (1u << lgConfigK) || (!srcCompact && lgAuxArrInts > lgConfigK + 1)) {
+    throw std::invalid_argument("Invalid AuxHashMap size: count " + std::to_string(auxCount)
+                                + ", lgAuxArrInts " + std::to_string(lgAuxArrInts));
+  }
   uint8_t lgArrInts = lgAuxArrInts;
   if (srcCompact) { // early compact versions didn't use LgArr byte field so ignore input
     lgArrInts = HllUtil<A>::computeLgArrInts(HLL, auxCount, lgConfigK);
@@ -102,6 +107,11 @@ template<typename A>
 AuxHashMap<A>* AuxHashMap<A>::deserialize(std::istream& is, uint8_t lgConfigK,
                                           uint32_t auxCount, uint8_t lgAuxArrInts,
                                           bool srcCompact, const A& allocator) {
+  // one exception per slot at most, held in a table that doubles when more than 3/4 full
+  if (auxCount > (1u << lgConfigK) || (!srcCompact && lgAuxArrInts > lgConfigK + 1)) {
+    throw std::invalid_argument("Invalid AuxHashMap size: count " + std::to_string(auxCount)
+                                + ", lgAuxArrInts " + std::to_string(lgAuxArrInts));
+  }
   uint8_t lgArrInts = lgAuxArrInts;
   if (srcCompact) { // early compact versions didn't use LgArr byte field so ignore input
     lgArrInts = HllUtil<A>::computeLgArrInts(HLL, auxCount, lgConfigK);
